@@ -11,6 +11,10 @@ Print Assumptions C12_fresh.
 Theorem C12_size_returns_requested : forall g m evals ret, Hcur (step g (Size m evals ret)) = ret.
 Proof. exact size_returns_requested. Qed.
 Print Assumptions C12_size_returns_requested.
+(* on the assignment REGENERATED from GHE.size: the stored height is the solver's result itself, not a rounded or edited copy *)
+Theorem C12_stored_height_is_the_solver_result : forall h : Q, size_stored_height h = h.
+Proof. exact stored_height_is_solver_result. Qed.
+Print Assumptions C12_stored_height_is_the_solver_result.
 Theorem C12_summary_counts : forall coords g, s_count (summarise coords g) = length coords /\
   s_drilling (summarise coords g) == s_height (summarise coords g) * natQ (s_count (summarise coords g)).
 Proof. exact summary_counts. Qed.
